@@ -68,6 +68,10 @@ def main():
             mod.run(R)
         except mon.Watchdog:
             R.inconc('watchdog')
+        except Exception as e:
+            import traceback
+            traceback.print_exc()
+            R.inconc(f'harness-exception-{type(e).__name__}')
         with open(a.out, 'w') as f:
             json.dump(R.dump_state(), f, default=repr)
         sys.exit(0)
@@ -75,7 +79,15 @@ def main():
     if nshards == 1:
         R = mon.Run(pid, a.tier, seed)
         R.rng = random.Random(seed * 1000003 + 17)
-        mod.run(R)
+        try:
+            mod.run(R)
+        except mon.Watchdog:
+            R.inconc('watchdog')
+        except Exception as e:
+            # an exception escaping the workload driver is not an observation of the property: say so instead of dying with exit 1
+            import traceback
+            traceback.print_exc()
+            R.inconc(f'harness-exception-{type(e).__name__}')
         sys.exit(R.finish(level))
 
     # fan out: fresh interpreter per shard, bounded by a generous wall-clock watchdog (inconclusive if it fires)
